@@ -10,6 +10,8 @@ import (
 	"math/big"
 	"time"
 
+	collectiveskeeper "github.com/KiraCore/sekai/x/collectives/keeper"
+	colltypes "github.com/KiraCore/sekai/x/collectives/types"
 	govkeeper "github.com/KiraCore/sekai/x/gov/keeper"
 	govtypes "github.com/KiraCore/sekai/x/gov/types"
 	spendingtypes "github.com/KiraCore/sekai/x/spending/types"
@@ -161,6 +163,144 @@ func c08PoolElectorate(r *Rec) {
 		}
 		if want == govtypes.QuorumNotReached && !untouched {
 			r.Fail("C08/pool-electorate/applied-without-passing", fmt.Sprintf("%s: quorum not reached; the pool reads %+v", label, pool), nil)
+		}
+	}
+}
+
+// c08CollectiveElectorate: the same for a collective whose owners are named TWICE OVER - one of them by account and as a
+// member of a whitelisted role. The electorate is the set of distinct owners; the quorum the stored collective's.
+func c08CollectiveElectorate(r *Rec) {
+	r.Mark("collective electorate")
+	cases := 6
+	if r.Tier == "thorough" {
+		cases = 40
+	}
+	var w *World
+	for ci := 0; ci < cases; ci++ {
+		if ci%3 == 0 {
+			w = NewWorld(WorldOpts{NAcc: 8, NVal: 1, SudoAccs: []int{7}})
+		}
+		name := fmt.Sprintf("ce%d", ci)
+		nRole := 3 + r.Rng.Intn(3)  // role members: accounts 0..nRole-1
+		dup := r.Rng.Intn(nRole)    // the member that is also listed by account
+		extra := r.Rng.Intn(2)      // an owner listed by account only (account 6)
+		n := nRole + extra          // distinct owners
+		qs := []string{"0.33", "0.5", "0.67", "0.4"}[r.Rng.Intn(4)]
+		v := 1 + r.Rng.Intn(n)
+		if ci%3 == 1 {
+			qs, v = "0.5", 1 // one vote of at least three owners: below any count of the distinct owners
+		}
+		label := fmt.Sprintf("collective %s: role of %d members, member %d also listed by account, %d account-only owner(s), stored quorum %s, %d yes votes", name, nRole, dup, extra, qs, v)
+		var pid uint64
+		setupErr := ""
+		br := w.Block(nil, BlockOpts{Dt: 6 * time.Second, Mid: func(ctx sdk.Context) {
+			gk := w.app.CustomGovKeeper
+			np := gk.GetNetworkProperties(ctx)
+			np.MinCollectiveBond = 1
+			if err := gk.SetNetworkProperties(ctx, np); err != nil {
+				setupErr = err.Error()
+				return
+			}
+			for i := 0; i < 7; i++ {
+				if _, has := gk.GetNetworkActorByAddress(ctx, w.addrs[i]); !has {
+					gk.SaveNetworkActor(ctx, govtypes.NewDefaultActor(w.addrs[i]))
+				}
+			}
+			role := gk.CreateRole(ctx, "owners-"+name, "d")
+			for i := 0; i < nRole; i++ {
+				if err := gk.AssignRoleToAccount(ctx, w.addrs[i], role); err != nil {
+					setupErr = err.Error()
+					return
+				}
+			}
+			if w.app.SpendingKeeper.GetSpendingPool(ctx, "sp1") == nil {
+				w.app.SpendingKeeper.SetSpendingPool(ctx, spendingtypes.SpendingPool{Name: "sp1", Balances: []sdk.Coin{}})
+			}
+			owners := colltypes.OwnersWhitelist{Roles: []uint64{role}, Accounts: []string{w.addrs[dup].String()}}
+			if extra == 1 {
+				owners.Accounts = append(owners.Accounts, w.addrs[6].String())
+			}
+			pools := []colltypes.WeightedSpendingPool{{Name: "sp1", Weight: sdk.NewDec(1)}}
+			cms := collectiveskeeper.NewMsgServerImpl(w.app.CollectivesKeeper)
+			if err := withCache(ctx, func(c sdk.Context) error {
+				_, e := cms.CreateCollective(sdk.WrapSDKContext(c), colltypes.NewMsgCreateCollective(w.addrs[0], name, "d", sdk.NewCoins(sdk.NewInt64Coin("ukex", 1_000_000)),
+					colltypes.DepositWhitelist{Any: true}, owners, pools, 0, 86400, 0, sdk.MustNewDecFromStr(qs), 600, 300))
+				return e
+			}); err != nil {
+				setupErr = err.Error()
+				return
+			}
+			content := colltypes.NewProposalCollectiveUpdate(name, "new description", colltypes.CollectiveActive, colltypes.DepositWhitelist{Any: true}, owners, pools, 0, 86400, 0, sdk.MustNewDecFromStr(qs), 600, 300)
+			gms := govkeeper.NewMsgServerImpl(gk)
+			m, err := govtypes.NewMsgSubmitProposal(w.addrs[0], "t", "d", content)
+			if err != nil {
+				setupErr = err.Error()
+				return
+			}
+			if err := withCache(ctx, func(c sdk.Context) error {
+				res, e := gms.SubmitProposal(sdk.WrapSDKContext(c), m)
+				if e == nil {
+					pid = res.ProposalID
+				}
+				return e
+			}); err != nil {
+				setupErr = err.Error()
+				return
+			}
+			voters := []int{}
+			for i := 0; i < nRole && len(voters) < v; i++ {
+				voters = append(voters, i)
+			}
+			if len(voters) < v && extra == 1 {
+				voters = append(voters, 6)
+			}
+			for _, i := range voters {
+				if err := withCache(ctx, func(c sdk.Context) error {
+					_, e := gms.VoteProposal(sdk.WrapSDKContext(c), govtypes.NewMsgVoteProposal(pid, w.addrs[i], govtypes.OptionYes, sdk.ZeroDec()))
+					return e
+				}); err != nil {
+					setupErr = fmt.Sprintf("vote of owner %d: %v", i, err)
+				}
+			}
+		}})
+		if br.Panicked != nil || setupErr != "" || pid == 0 {
+			r.Count("collective-electorate:setup-failed")
+			r.Notes = append(r.Notes, label+": set-up failed: "+setupErr+fmt.Sprint(br.Panicked))
+			continue
+		}
+		w.ApplyUpdates(br.Updates)
+		result := govtypes.Pending
+		halted := false
+		for b := 0; b < 6 && result == govtypes.Pending; b++ {
+			dt := 6 * time.Second
+			if b == 0 {
+				dt = 601 * time.Second
+			}
+			br := w.Block(nil, BlockOpts{Dt: dt})
+			if br.Panicked != nil {
+				halted = true
+				r.Fail("C08/collective-electorate/tally-halts", fmt.Sprintf("%s: the block that tallies the proposal panicked in %s: %.160v", label, br.Phase, br.Panicked), nil)
+				break
+			}
+			w.ApplyUpdates(br.Updates)
+			if p, ok := w.app.CustomGovKeeper.GetProposal(w.ReadCtx(), pid); ok {
+				result = p.Result
+			}
+		}
+		if halted {
+			continue
+		}
+		lhs := new(big.Int).Mul(big.NewInt(int64(v)), new(big.Int).Exp(big.NewInt(10), big.NewInt(18), nil))
+		rhs := new(big.Int).Mul(big.NewInt(int64(n)), sdk.MustNewDecFromStr(qs).BigInt())
+		want := govtypes.QuorumNotReached
+		if lhs.Cmp(rhs) >= 0 {
+			want = govtypes.Enactment
+		}
+		r.Count("oracle:C08/collective-electorate/result")
+		r.Count(fmt.Sprintf("collective-electorate:%s", resName(result)))
+		r.Case(fmt.Sprintf("collective-electorate/%d/%d/%d/%s/%d/%s", nRole, dup, extra, qs, v, resName(result)), true)
+		if result != want && !(want == govtypes.Enactment && result == govtypes.Passed) {
+			r.Fail("C08/collective-electorate/result-against-distinct-owners", fmt.Sprintf("%s (%d distinct owners): the proposal came out as %s, by the stored collective it is %s", label, n, resName(result), resName(want)), nil)
 		}
 	}
 }
